@@ -8,11 +8,12 @@
    the pattern-match error (Graph/Centres_proofs.v); which tuples a pattern
    matches is characterised exactly in C08.  PARTIAL: the model
    (Graph/Scheme.v) IS the independent interpreter of the scheme file; its
-   agreement with GetDescriptors is decided by the correspondence; the group
-   naming / descriptor counting / remap clauses are stated by the interpreter
-   itself (dictionary lemmas), not against a separate declarative spec. *)
+   agreement with GetDescriptors is decided by the correspondence.  The other
+   clauses are proved about it too: group counts before remaps
+   (C02_group_counts), one count per distinct atom set
+   (C02_descriptor_sets_cover, _once), remaps as linear substitutions (C02_remaps_linear). *)
 From Coq Require Import List NArith ZArith QArith Arith Bool.
-From PG Require Import Common.Strs Graph.Mol Graph.Match Graph.Scheme Graph.SchemeLoad Graph.Scheme_proofs Graph.Centres_proofs Gen.Schemes.
+From PG Require Import Common.Strs Graph.Mol Graph.Match Graph.Scheme Graph.SchemeLoad Graph.Scheme_proofs Graph.Centres_proofs Graph.Remap_proofs Gen.Schemes.
 Import ListNotations.
 
 (* every pattern and correction descriptor of every shipped scheme is readable
@@ -72,6 +73,16 @@ Proof. exact distinct_sets_distinct. Qed.
 Theorem C02_same_set_is_set_equality : forall a b, same_set a b = true <-> (forall x, In x a <-> In x b).
 Proof. exact same_set_spec. Qed.
 Print Assumptions C02_descriptor_sets_once.
+
+(* "remap rules are applied as linear substitutions": for a dictionary with unique keys and a chain-free remap table
+   (no target is itself remapped - part of the finite theorem C02_all_schemes_ok for the shipped schemes), a remapped
+   name disappears and every other name keeps its count plus, from each remapped name present, count x coefficient *)
+Theorem C02_remaps_linear : forall rm d, chain_free rm -> NoDup (map fst d) -> forall k,
+  dict_get (apply_remaps rm d) k
+  == (if src rm k && memk k (map fst d) then 0 else dict_get d k)
+     + fold_right (fun s t => term rm d s k + t) 0 (map fst d).
+Proof. intros rm d CF. exact (apply_remaps_linear rm CF d). Qed.
+Print Assumptions C02_remaps_linear.
 
 Theorem C02_only_pattern_error : forall sch m e, assign_centres sch m = SRaise e -> e = PatternMatch.
 Proof. exact centres_only_pattern_error. Qed.
